@@ -90,7 +90,102 @@ def scenarios(tier):
         ("scan_dex", SRC_DEX, ("file", "c6f9709feccf42f2d9e22057182fe185f177fb9daaa2649b4669a24f2ee7e3ba_0h_410h"), "scan", 300 if not T else big),
         ("all_small", SRC_SMALL, DATA_TEXT, "init,compile,save,load,screate,scan", 10 ** 9),
     ]
-    return S
+    return S + re_scenarios(tier) + base64_scenarios(tier)
+
+
+# ------------------------------------------------------------------ regexp execution: every action path of yr_re_exec on a fresh scanner
+def re_scenarios(tier):
+    """One regexp per scenario (the scanner's fiber pool is empty when the scan starts, so the first split really allocates).
+    The regexps come from a small grammar: literal prefix, zero-width assertion (\b \B ^ $ or none), an element that splits the
+    fiber (alternation, ? * + {n,m}, greedy and ungreedy, classes), in both orders and nested, mirrored in front of a long atom
+    (backwards execution), with nocase / wide variants, the fast path (hex jumps, /ab.{1,3}cd/) and the `matches` operator.
+    Every entry carries data that reaches and satisfies it: the baseline must match."""
+    out = []
+
+    def add(tag, rx, data, mods="", cond=None):
+        if cond is None:
+            src = "rule re { strings: $a = /%s/%s condition: $a }" % (rx, (" " + mods) if mods else "")
+        else:
+            src = "rule re { condition: %s }" % cond
+        out.append(("re_%03d_%s" % (len(out), tag), src.encode("latin-1"), data, "scan", 10 ** 9))
+    # splitting elements that can follow `abc\b` (start with a non-word character) / `abc\B` (start with a word character)
+    nw = [("( x| y)", " x"), (" ?x", " x"), (" *x", "  x"), (" +x", " x"), (" {1,2}x", "  x"), (" *?x", " x"), (" +?x", "  x"),
+          (" {1,3}?x", "  x"), ("[ -]x?", "-"), ("( |-)+z", " - z"), ("( (x|y)| z)w", " yw"), (".*x", " qqx"), (".{1,3}x", " qx")]
+    wd = [("(d|e)", "d"), ("d?e", "e"), ("d*e", "dde"), ("d+e", "de"), ("d{1,2}e", "dde"), ("d*?e", "de"), ("d+?e", "dde"),
+          ("d{1,3}?e", "dde"), ("[de]f?", "d"), ("(d|e)+z", "dedz"), ("((d|e)f|g(h|i))z", "giz"), ("\\w*z", "qqz"), ("\\w{1,3}z", "qz")]
+    for rx, ex in nw:
+        add("b_split", "abc\\b" + rx, ("zz abc" + ex + " zz abc" + ex + " zz").encode())
+    for rx, ex in wd:
+        add("B_split", "abc\\B" + rx, ("zz abc" + ex + " zz abc" + ex + " zz").encode())
+    for rx, ex in wd[:9]:
+        add("none_split", "abc" + rx, ("zz abc" + ex + " zz").encode())
+    for rx, ex in (("(a|b)cde", "acde"), ("a?bcde", "bcde"), ("a*bcde", "aabcde"), ("a+?bcde", "abcde"), ("a{1,2}bcde", "aabcde"), ("(ab|cd)+efg", "abcdefg"),
+                   ("\\b(a|b)cde", "acde"), ("\\b\\b(a|b)cde", "bcde")):
+        add("caret_split", "^" + rx, (ex + " zz " + ex).encode())
+    for rx in ("c?", "(c|d)?", "c*", "c{0,2}", "(c|d)*?", "\\b(c|d)?", "$c?"):
+        add("dollar_split", "xyzab$" + rx, b"zz xyzab zz xyzab")
+    # the split first, then the assertion
+    for rx, ex in (("(d|e)\\b", "d"), ("d?\\b ", " "), ("(d|e)+\\Bf", "def"), ("d*\\b", "dd"), ("(d|e){1,2}\\b( x| y)", "de y"), ("d+?\\b", "d")):
+        add("split_assert", "abc" + rx, ("zz abc" + ex + " zz").encode())
+    # backwards execution: the atom is the long literal, what precedes it runs on the reversed code
+    for rx, ex in (("( x| y)\\B", " x"), ("( |-)?\\b", "-"), ("[ -]*\\b", " - "), (" {1,2}\\b", "  "), ("(a|b)\\B", "a"), ("(a|b)+?\\B", "ab"), ("a{1,3}\\B", "aa"),
+                   ("\\b(a|b)*", "ab"), ("^(a|b)?", "a"), ("\\ba?(b|c)\\B", "ac")):
+        add("backward", rx + "qqneedleword", (ex + "qqneedleword zz " + ex + "qqneedleword").encode() if rx.startswith("^") else
+            ("zz " + ex + "qqneedleword zz").encode())
+    add("middle", "(a|b)\\Bqqneedleword\\b( x| y)", b"zz aqqneedleword y zz")
+    add("middle", "(a|b){1,2}?\\Bqqneedleword$( x)??", b"zz abqqneedleword")
+    # repeats, jumps, nested alternations
+    for rx, ex in (("ab{2,3}c", "abbc"), ("a(bc){1,2}d", "abcbcd"), ("a(bc){2,3}?d", "abcbcd"), ("ab.{1,3}cd", "abxxcd"), ("ab.*cd", "abxxcd"), ("ab.*?cd", "abxcd"),
+                   ("ab.+cd", "abxcd"), ("a[bc]{2,}d", "abcbd"), ("ab{2,}?c", "abbbc"), ("a((b|c)d|e(f|g))h", "acdh"), ("a(b|c(d|e(f|g)))h", "acegh"),
+                   ("(ab|a)(bc|c)d", "abcd"), ("a(b{1,2}|c{2,3})+d", "abccbd"), ("ab(\\b|c)d?", "ab"), ("a.{2}?b.{1,2}?c", "axxbxc"), ("(abc|abd|abe){2}", "abdabe"),
+                   ("a\\d+\\.\\d{1,3}b", "a12.5b"), ("ab[^c]{1,4}c", "abxxc")):
+        add("repeat", rx, ("zz " + ex + " zz " + ex + " zz").encode())
+    # modifiers
+    for rx, ex in (("abc\\b( x| y)", "abc x"), ("abc\\B(d|e)+f", "abcdef"), ("ab{2,3}c", "abbc"), ("a(b|c(d|e))f", "acef")):
+        add("nocase", rx, ("zz " + ex.upper() + " zz").encode(), "nocase")
+        add("wide", rx, ("zz " + ex + " zz").encode("utf-16le"), "wide")
+        add("asciiwide", rx, ("zz " + ex + " zz ").encode() + ("zz " + ex + " zz").encode("utf-16le"), "ascii wide nocase")
+        add("fullword", rx, ("zz " + ex + " zz").encode(), "fullword")
+    # the fast path (yr_re_fast_exec): hex strings with jumps, wildcards; and literal regexps with .{n,m}
+    for hexs, data in (("61 62 [1-3] 63 64", b"zz abxxcd zz"), ("61 62 [2-] 63 64", b"zz abxxxxcd zz"), ("61 ?? 62 [0-2] 63", b"zz axbc zz axbxxc"),
+                       ("61 62 [1-2] 63 [1-2] 64", b"zz abxcxxd zz"), ("61 62 [0-40] 63 64 [1-3] 65", b"zz ab cd cd xe abcdxe"), ("61 6? [1-2] ?3 64", b"zz abxcd zz")):
+        out.append(("re_%03d_fasthex" % len(out), ("rule re { strings: $a = { %s } condition: $a }" % hexs).encode(), data, "scan", 10 ** 9))
+    out.append(("re_%03d_hexalt" % len(out), b"rule re { strings: $a = { 61 62 ( 63 | 64 65 ) [1-2] 66 } condition: $a }", b"zz abdexf zz abcxxf", "scan", 10 ** 9))
+    # the `matches` operator (yr_re_exec with RE_FLAGS_SCAN from exec.c); the scanner defines ext_s = "abcd"
+    for cond in ('ext_s matches /^a(b|x)c\\B(d|e)/', 'ext_s matches /abc\\B(d|e)$/', 'ext_s matches /abcd$e?/', 'ext_s matches /^(a|b)+?c/',
+                 '"abc x" matches /abc\\b( x| y)/', '"zz ABC x" matches /abc\\b( x| y)/i', '"a\\nbc" matches /a.b?c/s', 'ext_s matches /b{1,2}c(d|e)/',
+                 'ext_s matches /a.*d/ and ext_s matches /a.*?d$/'):
+        add("matches", None, b"zz", cond=cond)
+    return out
+
+
+# ------------------------------------------------------------------ text strings that go through base64.c (and sizedstr.c: ss_new / ss_dup / ss_convert_to_wide)
+B64_ALPHA = "!@#$%^&*(){}[].,|ABCDEFGHIJ\\x09LMNOPQRSTUVWXYZabcdefghijklmnopqrstu"
+
+
+def base64_scenarios(tier):
+    import base64
+    text = b"This program cannot"
+    enc = base64.b64encode(text) + b" " + base64.b64encode(text.decode().encode("utf-16le")) + b" "
+    data = b"zz " + enc + enc.decode().encode("utf-16le") + b" zz"
+    mods = ["base64", "base64wide", "base64 base64wide", "wide base64", "wide base64wide", "ascii wide base64", "ascii wide base64wide",
+            "ascii wide base64 base64wide", 'base64("%s")' % B64_ALPHA, 'base64wide("%s")' % B64_ALPHA, 'wide base64("%s")' % B64_ALPHA,
+            'ascii wide base64("%s") base64wide("%s")' % (B64_ALPHA, B64_ALPHA), "base64 private", "wide base64 private"]
+    out = []
+    for i, m in enumerate(mods):
+        if tier != "thorough" and "private" in m:
+            continue
+        src = 'rule b64 { strings: $a = "This program cannot" %s condition: $a }' % m
+        out.append(("b64_%02d_%s" % (i, re.sub(r"\W+", "_", re.sub(r'\("[^"]*"\)', "_alpha", m))), src.encode("latin-1"), data, "compile", 10 ** 9))
+    several = "rule b64all { strings: " + " ".join('$s%d = "%s" %s' % (i, ["This program cannot", "be run in DOS mode", "abc"][i % 3], m)
+                                                   for i, m in enumerate(mods[:12])) + " condition: any of them }"
+    out.append(("b64_several", several.encode("latin-1"), data, "compile", 10 ** 9 if tier == "thorough" else 1500))
+    # the other users of ss_new / ss_dup / ss_convert_to_wide: string literals and concatenations in conditions, metas, wide/xor text strings
+    src = ('rule ss { meta: m = "meta string" strings: $w = "wide text" wide $x = "xored" xor(1-2) wide ascii $n = "NoCase" nocase wide '
+           'condition: any of them or ext_s contains "b" or ext_s icontains "B" or ext_s startswith "a" or ext_s iendswith "C" or ext_s iequals "ABC" '
+           'or "abc" == ext_s or for any s in ("a", "b", ext_s) : ( s == "abc" ) }')
+    out.append(("b64_sized_strings", src.encode("latin-1"), data, "compile", 10 ** 9))
+    return out
 
 
 def case_lines(sc, kfrom, kto, sticky, lsan_each=0):
@@ -234,7 +329,8 @@ def explore(chk, h, tier, only=None):
     rng = chk.rng.fork()
     stats = {}
     tasks = []
-    scs = [s for s in scenarios(tier) if not only or s[0] in only]
+    scs = [s for s in scenarios(tier) if not only or s[0] in only or ("re" in only and s[0].startswith("re_")) or
+           ("b64" in only and s[0].startswith("b64_"))]
     bases = {}
     # baselines (k = 0): allocation count and the expected scan result
     cases = [(s[0], case_lines(s, 0, 0, 0)) for s in scs]
@@ -244,6 +340,10 @@ def explore(chk, h, tier, only=None):
         for l in out.get(s[0], []):
             if l.startswith("res "):
                 r = parse_res(l)
+        if r is not None and s[0].startswith("re_") and r["phase"] == "-" and r["sig"] == "-":
+            # the data is meant to reach the construct: a baseline that does not match means the scenario no longer exercises it
+            chk.violation("scenario:%s:baseline-nomatch" % s[0], "regexp scenario %s does not match its own data: %s" % (s[0], s[1][:200]),
+                          {"scenario": s[0], "source": s[1].decode("latin-1"), "output": out.get(s[0])}, found_input=False)
         if r is None or r["phase"] != "-" or r["live"] != 0 or r["live2"] != 0:
             chk.violation("scenario:%s:baseline" % s[0], "scenario %s does not run cleanly without any injected failure: %s" % (s[0], out.get(s[0])),
                           {"scenario": s[0], "output": out.get(s[0]), "stderr": err[-1500:]}, found_input=True)
